@@ -48,7 +48,7 @@ def plane_desc(draw, shape, wl, allow_shapeless):
 @st.composite
 def chain_case(draw, tier="quick"):
     hi = 10 if tier == "quick" else 24
-    shape = draw(gen.shape2(2, hi))
+    shape = draw(gen.shape2(2, hi, big=0.02, big_pool=[64, 65, 128, 129, 257]))
     wl = draw(gen.finite(0.4e-6, 2e-6))
     cls = draw(st.sampled_from(["Plane", "Pupil", "Pupil", "Image"]))
     n = draw(st.integers(1, 3))
